@@ -322,10 +322,100 @@ def split_line(line):
     return op, rest, None
 
 
+# ---- exported / printed text as documents.  The properties speak about content and order (one node per present vertex,
+# ascending ids, every edge with label and target, the data bytes), not about white space, styling attributes, header lines
+# or the group lines of Debug: both the oracles and the comparison with the model read the text through these parsers.
+
+def _hex_to_text(x):
+    try:
+        return bytes.fromhex(x).decode("utf-8")
+    except ValueError:
+        return None
+
+
+def canon_xml(txt):
+    """[(id, [(label, target)], data text or None)] in document order"""
+    nodes = []
+    for m in re.finditer(r"<v\b([^>]*?)(?:/>|>(.*?)</v\s*>)", txt, re.S):
+        attrs = dict(re.findall(r'([\w:-]+)\s*=\s*"([^"]*)"', m.group(1)))
+        if "id" not in attrs or not attrs["id"].isdigit():
+            return None
+        body = m.group(2) or ""
+        edges = []
+        for e in re.finditer(r"<e\b([^>]*?)/?>", body, re.S):
+            ea = dict(re.findall(r'([\w:-]+)\s*=\s*"([^"]*)"', e.group(1)))
+            if "a" not in ea or not ea.get("to", "").isdigit():
+                return None
+            edges.append((ea["a"], int(ea["to"])))
+        d = re.search(r"<data\b[^>]*>(.*?)</data\s*>", body, re.S)
+        nodes.append((int(attrs["id"]), edges, " ".join(d.group(1).split()) if d else None))
+    return nodes
+
+
+def canon_dot(txt):
+    """[(id, [(label, target)], data text or None)]; an edge line belongs to the node line before it"""
+    nodes, cur = [], None
+    for line in txt.split("\n"):
+        m = re.match(r'^\s*v(\d+)\s*\[([^\]]*)\]\s*;?\s*(?:/\*\s*(.*?)\s*\*/)?\s*$', line)
+        if m and re.search(r'label\s*=\s*"ν%s"' % m.group(1), m.group(2)):
+            cur = (int(m.group(1)), [], m.group(3))
+            nodes.append(cur)
+            continue
+        m = re.match(r'^\s*v(\d+)\s*->\s*v(\d+)\s*\[([^\]]*)\]', line)
+        if m:
+            lab = re.search(r'label\s*=\s*"([^"]*)"', m.group(3))
+            if lab is None:
+                return None
+            if cur is not None and int(m.group(1)) == cur[0]:
+                cur[1].append((lab.group(1), int(m.group(2))))
+            else:
+                nodes.append((int(m.group(1)), [("<edge outside its node>", -1)], None))
+    return nodes
+
+
+def canon_debug(txt):
+    """[(id, text between the brackets)] of the vertex entries `ν<id> -> ⟦...⟧`; everything else (the group lines) is
+    nobody's contract"""
+    return [(int(m.group(1)), m.group(2)) for m in re.finditer(r"^ν(\d+) -> ⟦(.*?)⟧$", txt, re.M | re.S)]
+
+
+def canon_inspect(txt):
+    """(start id, [(depth, label, target, seen-before marker)]): the depth is the rank of the line's indentation among the
+    open ones, whatever its width"""
+    lines = [l for l in txt.split("\n") if l.strip()]
+    if not lines:
+        return None
+    m = re.match(r"^\s*ν(\d+)\s*$", lines[0])
+    if not m:
+        return None
+    out, stack = [], []
+    for ln in lines[1:]:
+        m2 = re.match(r"^(\s*)\.(.*?) ➞ ν(\d+)(…?)\s*$", ln)
+        if not m2:
+            return None
+        w = len(m2.group(1))
+        while stack and stack[-1] > w:
+            stack.pop()
+        if not stack or stack[-1] < w:
+            stack.append(w)
+        out.append((len(stack) - 1, m2.group(2), int(m2.group(3)), m2.group(4)))
+    return (int(m.group(1)), out)
+
+
+_CANON = {"XML": canon_xml, "DOT": canon_dot, "DEBUG": canon_debug, "INSPECT": canon_inspect}
+
+
 def lines_agree(ml, il):
-    """raw equality, else equality of result and abstract state"""
+    """raw equality, else equality of result and abstract state (or, for exported text, of the documents)"""
     if ml == il:
         return True, False
+    op = ml.split(" ", 1)[0]
+    if op in _CANON and il.startswith(op + " -> ") and " | " not in ml:
+        a, b = _hex_to_text(ml[len(op) + 4:]), _hex_to_text(il[len(op) + 4:])
+        if a is None or b is None:
+            return False, False
+        da, db = _CANON[op](a), _CANON[op](b)
+        return (da is not None and da == db), True
     try:
         mo, mr, ms = split_line(ml)
         io, ir, isn = split_line(il)
